@@ -36,6 +36,7 @@ func (e *EventRouter[I, T]) Subscribe(identifier I) <-chan T {
 	defer e.mutex.Unlock()
 
 	events := make(chan T, e.channelLength)
+	routerHook("subscribe", identifier, (<-chan T)(events))
 	e.routes = append(e.routes, route[I, T]{identifier, events})
 
 	return events
@@ -45,6 +46,7 @@ func (e *EventRouter[I, T]) Subscribe(identifier I) <-chan T {
 func (e *EventRouter[I, T]) Unsubscribe(ch <-chan T) {
 	e.mutex.Lock()
 	defer e.mutex.Unlock()
+	routerHook("unsubscribe", nil, ch)
 
 	for i, r := range e.routes {
 		if r.ch == ch {
@@ -61,6 +63,7 @@ func (e *EventRouter[I, T]) Unsubscribe(ch <-chan T) {
 func (e *EventRouter[I, T]) Publish(id I, event T) {
 	e.mutex.Lock()
 	defer e.mutex.Unlock()
+	routerHook("publish", id, event)
 
 	for _, route := range e.routes {
 		if route.id == id {
